@@ -47,6 +47,12 @@ func (a *application) start(mode gen.ApplicationMode, options gen.ApplicationOpt
 		appEnv[k] = v
 	}
 
+	// the state of this run must be in place before the first member exists:
+	// a member may terminate while the others are still being started
+	a.mode = mode
+	a.reason = nil
+	a.stopped = make(chan struct{})
+
 	// start items
 	for _, item := range a.spec.Group {
 		opts := gen.ProcessOptionsExtra{
@@ -74,9 +80,7 @@ func (a *application) start(mode gen.ApplicationMode, options gen.ApplicationOpt
 		a.group.Store(pid, true)
 	}
 
-	a.stopped = make(chan struct{})
 	a.node.log.Info("application %s (%s) started", a.spec.Name, a.mode)
-	a.mode = mode
 	a.parent = options.CorePID.Node
 
 	a.started = time.Now().Unix()
@@ -120,18 +124,20 @@ func (a *application) stop(force bool, timeout time.Duration) error {
 	// update mode to prevent triggering 'permantent' mode
 	a.mode = gen.ApplicationModeTemporary
 
+	// the reason must be known before the first member is gone: the last one
+	// to terminate reports it to the Terminate callback
+	if force {
+		a.reason = gen.TerminateReasonKill
+	} else {
+		a.reason = gen.TerminateReasonShutdown
+	}
+
 	for _, pid := range a.members() {
 		if force {
 			a.node.Kill(pid)
 		} else {
 			a.node.SendExit(pid, gen.TerminateReasonShutdown)
 		}
-	}
-
-	if force {
-		a.reason = gen.TerminateReasonKill
-	} else {
-		a.reason = gen.TerminateReasonShutdown
 	}
 
 	select {
